@@ -23,8 +23,8 @@ ASSUMPTIONS = [
     "no ACL, implicit defaults off, add_comments off",
     "if both front ends raise the same exception type for an input they are counted as agreeing (exceptions_agreed)",
 ]
-FLOORS = {"quick": {"pairs_compared": 500, "nonempty_patches": 300, "file_workers_compared": 150, "file_workers_concrete_model": 80, "equal_config_pairs": 300, "device_workers_compared": 150, "device_workers_safe_differs_from_full": 40, "file_diff_lines_checked": 1500, "file_diff_moved_lines_checked": 60, "vlan_list_pairs": 300},
-          "thorough": {"pairs_compared": 20000, "nonempty_patches": 12000, "file_workers_compared": 150, "file_workers_concrete_model": 80, "equal_config_pairs": 300, "device_workers_compared": 150, "device_workers_safe_differs_from_full": 40, "file_diff_lines_checked": 1500, "file_diff_moved_lines_checked": 60, "vlan_list_pairs": 6000}}
+FLOORS = {"quick": {"pairs_compared": 500, "nonempty_patches": 300, "file_workers_compared": 150, "file_workers_concrete_model": 80, "equal_config_pairs": 300, "device_workers_compared": 150, "device_workers_safe_differs_from_full": 40, "file_diff_lines_checked": 1500, "file_diff_moved_lines_checked": 60, "vlan_list_pairs": 300, "file_workers_compared_with_comments": 150, "patches_whose_commands_carry_comments": 10},
+          "thorough": {"pairs_compared": 20000, "nonempty_patches": 12000, "file_workers_compared": 150, "file_workers_concrete_model": 80, "equal_config_pairs": 300, "device_workers_compared": 150, "device_workers_safe_differs_from_full": 40, "file_diff_lines_checked": 1500, "file_diff_moved_lines_checked": 60, "vlan_list_pairs": 6000, "file_workers_compared_with_comments": 150, "patches_whose_commands_carry_comments": 10}}
 EXTRA_MODELS = {"huawei": ["Huawei CE6870", "Huawei NE40E-X8", "Huawei Quidway S5300"], "huawei ce": ["Huawei"], "cisco": ["Cisco Catalyst 2960"],
                 "nexus": ["Cisco Nexus 3432"], "asr": ["Cisco XRv"], "iosxr": ["Cisco ASR 9010"]}
 
@@ -262,6 +262,12 @@ def run_files(spec, acc):
             h = HardwareView(j["model"], "")
             fmt = registry_connector.get().match(h).make_formatter()
             jobs.append(("hand:" + j["old"][:30], h, j["old"], j["new"], tabparser.parse_to_tree(j["old"], fmt.split), tabparser.parse_to_tree(j["new"], fmt.split)))
+        # pairs whose patch holds commands with rule hints (shown with --add-comments only)
+        for model in ("Cisco Catalyst 2960", "Cisco Catalyst 3560", "Cisco Catalyst", "Cisco ASR 9010", "Cisco XRv"):
+            h = HardwareView(model, "")
+            fmt = registry_connector.get().match(h).make_formatter()
+            for o_, n_ in (("", "ip ssh version 2\n"), ("hostname a\n", "hostname a\nip ssh version 2\n"), ("hostname a\n", "hostname b\nip ssh version 2\n")):
+                jobs.append(("hints:" + n_[:20], h, o_, n_, tabparser.parse_to_tree(o_, fmt.split), tabparser.parse_to_tree(n_, fmt.split)))
         for name, hw, before, after, old, new in jobs:
             op, np_ = os.path.join(d, "old.cfg"), os.path.join(d, "new.cfg")
             with open(op, "w") as f:
@@ -300,6 +306,23 @@ def run_files(spec, acc):
             if got_patch != exp_patch:
                 acc.violation("C16/patch-differs", "file_patch_worker prints a different patch than the device front end computes for the same configurations",
                               dict(w, file_patch=got_patch.split("\n")[:30], device_patch=exp_patch.split("\n")[:30]))
+                continue
+            # the same with --add-comments (rule hints such as !!timeout=..!! appended to the commands)
+            try:
+                _, dpatch_c = api._diff_and_patch(c01.Dev(hw), old, new, None, None, True)
+                exp_c = api._format_patch_blocks(dpatch_c, hw, "  ")
+                args_c = types.SimpleNamespace(hw=hw, add_comments=True, indent="  ", show_rules=False, no_color=True, old=op, new=np_)
+                fp_c = list(api.file_patch_worker((op, np_), args_c))
+                got_c = fp_c[0][1] if fp_c else ""
+            except Exception as e:
+                acc.violation("C16/add-comments-exception/%s" % type(e).__name__, "a front end raised with --add-comments on a pair both handle without", dict(w, error=repr(e)[:300]))
+                continue
+            acc.count("file_workers_compared_with_comments")
+            if exp_c != exp_patch:
+                acc.count("patches_whose_commands_carry_comments")
+            if got_c != exp_c:
+                acc.violation("C16/patch-differs-with-add-comments", "with --add-comments file_patch_worker prints a different patch than the device front end",
+                              dict(w, file_patch=got_c.split("\n")[:30], device_patch=exp_c.split("\n")[:30]))
                 continue
             exp_diff = "".join(gen_pre_as_diff(make_pre(ddiff), False, "  ", True))
             got_diff = fd[0][1] if fd else ""
